@@ -151,6 +151,24 @@ func main() {
 		add(4, []time.Duration{0, ms, 5 * ms}, "-nf", []bool{false}, []int{2}, 0, adv(1, 0))
 		add(2, []time.Duration{0, ms, 5 * ms}, "-nf", []bool{true}, []int{1, 2}, 2*ms, adv(2, 1))
 	}
+	// several workers alive (after a burst) and a head that is further away than the idle timeout: a worker's
+	// sleep is then clamped to the idle timeout, so an expired sleep timer does not mean the head is due
+	for _, idle := range []time.Duration{2 * ms} {
+		for _, pool := range []int{2, 3} {
+			for _, far := range []time.Duration{3 * ms, 10 * ms} {
+				for _, burst := range []time.Duration{0, ms} {
+					for _, plan := range []string{"----", "---f", "n---", "-n-a"} {
+						sc := script([]time.Duration{burst, burst, burst, far}, plan, false, pool, 0)
+						sc.Idle = idle
+						jobs = append(jobs, job(sc, adv(1, 0)))
+						if run.Thorough() {
+							jobs = append(jobs, job(sc, adv(2, 1)))
+						}
+					}
+				}
+			}
+		}
+	}
 	sort.SliceStable(jobs, func(a, b int) bool { return jobs[a].Cfg.P+jobs[a].Cfg.K > jobs[b].Cfg.P+jobs[b].Cfg.K })
 	budget := 4 * time.Minute
 	if run.Thorough() {
@@ -158,7 +176,7 @@ func main() {
 	}
 	sdrv.Main(run, jobs, sdrv.Options{
 		Budget: budget,
-		Bounds: map[string]any{"futures": "1..3 (thorough 4)", "delays": "-1ms, 0, 1ms, 5ms with repetition (equal deadlines)", "cancel_plans": "none / right after the calls / exactly at the fire time (aligned with the dispatcher's timer so that Cancel races the pop) / 1ms after firing / twice", "callers": "1 or 2 (cancels issued by a second thread)", "pool_limit": "1..2", "clock": "adversarial: the clock may advance while threads are runnable (K deviations) besides advancing when everything is blocked"},
+		Bounds: map[string]any{"futures": "1..3 (thorough 4)", "delays": "-1ms, 0, 1ms, 5ms with repetition (equal deadlines)", "cancel_plans": "none / right after the calls / exactly at the fire time (aligned with the dispatcher's timer so that Cancel races the pop) / 1ms after firing / twice", "callers": "1 or 2 (cancels issued by a second thread)", "pool_limit": "1..3", "idle_timeout": "30s, and 2ms in the family with a burst followed by a head beyond the idle timeout", "clock": "adversarial: the clock may advance while threads are runnable (K deviations) besides advancing when everything is blocked"},
 		Rule:   "every schedule within the preemption bound P and clock-deviation bound K of every script (multiset of delays x cancel plan per future x 1-2 callers x pool limit; one family with callbacks that stay busy so that the pool saturates) on the real timeout package (rewritten: mutex, wake channel, timers, worker spawn are scheduling points; thorough: every statement). Oracle on the virtual clock: start >= call time + delay; at most one start; no start if a Cancel returned before call time + delay; every future that was never cancelled starts exactly once by the final quiescence whatever was cancelled around it; heap indices consistent after every event; heap empty at the end",
 	})
 }
